@@ -4,6 +4,7 @@ package corpus
 import (
 	"encoding/base64"
 	"encoding/pem"
+	"fmt"
 	"os"
 	"path/filepath"
 	"sort"
@@ -132,6 +133,16 @@ func Load() *Corpus {
 				}
 			}
 		}
+	}
+	if v := os.Getenv("VERIF_SYNTH"); v != "" && v != "0" {
+		n := 0
+		fmt.Sscan(v, &n)
+		if n <= 1 {
+			n = 300
+		}
+		sy := Synth(1, n)
+		c.Certs = append(c.Certs, sy.Certs...)
+		c.CRLs = append(c.CRLs, sy.CRLs...)
 	}
 	return c
 }
